@@ -25,6 +25,8 @@ class Case:
         self.single_cli, self.single_srv = int(t[8]), int(t[9])
         self.cli_mtu, self.srv_mtu = int(t[10]), int(t[11])
         self.sched = t[12] if len(t) > 12 else ""
+        self.len2 = int(t[13]) if len(t) > 14 else None      # "b11": second upload, same resource
+        self.start2 = int(t[14]) if len(t) > 14 else None
 
     def lossless(self):
         return all(c == "." for c in self.sched)
@@ -215,12 +217,73 @@ def oracle(case, out):
     return bad
 
 
+def oracle_b11(case, out):
+    """two uploads A and B (own byte streams) to one resource on one session, told apart by
+    token / Request-Tag; single-body mode at the server; schedules without duplication"""
+    bad = []
+    if out.startswith("CRASH") or "END:" not in out:
+        return ["driver crashed or did not finish: " + out[:80]]
+    ev = parse(out)
+    got = {"=": 0, "+": 0}
+    resp = {"T": [0, 0, 0], "U": [0, 0, 0]}      # success, error, nack per application token
+    concluded = False
+    for f in ev:
+        k = f[0]
+        if k == "HS":
+            off, total, ln, eq = int(f[3]), int(f[4]), int(f[5]), f[7]
+            want = case.len if eq == "=" else case.len2 if eq == "+" else -1
+            if eq not in got or off != 0 or ln != want or total != want:
+                bad.append("O1 the server application got a body that is neither upload A nor upload B "
+                           "(off=%d total=%d len=%d eq=%s): blocks of the two transfers were mixed" %
+                           (off, total, ln, eq))
+            else:
+                got[eq] += 1
+        elif k == "HC":
+            who = f[3]
+            code = int(f[1])
+            if who == "F":
+                late = concluded and not case.lossless()
+                bad.append("%s response handler saw token %s, not one of the application's" %
+                           ("O3STALE" if late else "O3", f[2]))
+                continue
+            resp[who][0 if code >> 5 == 2 else 1] += 1
+            concluded = True
+        elif k == "NK":
+            if f[3] in resp:
+                resp[f[3]][2] += 1
+                concluded = True
+            elif f[3] == "F":
+                bad.append("O3 nack handler saw token %s, not one of the application's" % f[2])
+        elif k == "END" and f[1] == "steps":
+            bad.append("LIVELOCK the exchange does not terminate")
+        elif k == "FIN":
+            if int(f[1]) != 2:
+                bad.append("O7 client release callback ran %d times for 2 uploads" % int(f[1]))
+    for eq, name in (("=", "A"), ("+", "B")):
+        if got[eq] > 1:
+            bad.append("O2 upload %s was delivered %d times" % (name, got[eq]))
+    if case.lossless():
+        if got["="] != 1 or got["+"] != 1:
+            bad.append("O4 no datagram lost or duplicated but deliveries A=%d B=%d" % (got["="], got["+"]))
+        for who in ("T", "U"):
+            if resp[who] != [1, 0, 0]:
+                bad.append("O4 no datagram lost or duplicated but upload %s saw success/error/nack = %s" %
+                           (who, resp[who]))
+    if case.type == 0:
+        for who in ("T", "U"):
+            if sum(resp[who]) == 0:
+                bad.append("O5 confirmable upload %s ended without response, error or NACK" % who)
+    return bad
+
+
 def run_oracle(line, out):
     c = Case(line)
     c.tok = ""
     for tok in out.split()[:2]:
         if tok.startswith("TOK:"):
             c.tok = tok[4:]
+    if c.dir == "b11":
+        return c, oracle_b11(c, out)
     return c, oracle(c, out)
 
 
@@ -233,7 +296,7 @@ def tie_lines(case, out):
                 receiver dropped its state; the model's outcome per message must equal what
                 the real receiver did (RecBlocks.v reassembly cores vs put_block / get_block)
     -> (wire_line or None, recv_line or None, observed outcome string)"""
-    if "END:" not in out:
+    if "END:" not in out or case.dir == "b11":
         return None, None, ""
     ev = parse(out)
     data_sender = "TXc" if case.dir == "b1" else "TXs"
